@@ -5,7 +5,7 @@ import RJson.Proofs.SkipValue
 namespace RJson.Abs
 open RJson.Ragel RJson.Spec
 
-theorem vctx_top : VCtx .skip .top := ⟨rfl, rfl, by decide, rfl⟩
+theorem vctx_top (k : Kind) : VCtx k .top := ⟨rfl, by decide, rfl⟩
 
 theorem md_skip : md .skip = some Gen.skipMaxDepth := rfl
 
@@ -51,7 +51,7 @@ theorem abs_skip_scan {τ} (data : Bytes) (hsm : Small data) (h : Handler τ) (d
     have hnws := skipWs_cons_of _ b rest hsk
     have hstep : (machine .skip).step ⟨.top, .want true⟩ b = startValue .skip .top b := by
       simp [machine, step, hnws]
-    have hV := (skip_goals .skip (by decide) data h hsm (2 * data.toList.length + 2)).1 .top vctx_top _ b rest hstep
+    have hV := (skip_goals .skip (by decide) data h hsm (2 * data.toList.length + 2)).1 .top (vctx_top .skip) _ b rest hstep
       f1 p1 [] ({ initRegs dst hs with p := (p1 : Int) } : Regs τ) hat1 rfl rfl hf1 (by omega)
     rw [md_skip] at hV
     simp only [List.length_nil] at hV
